@@ -254,8 +254,10 @@ def mergeLoop : List (List α) → List α → List α
 /-- `merged := make([]T, 0, len(s)); merged = append(merged, s...); for … { merged = append(merged, params[i]...) }` -/
 def merge (s : List α) (params : List (List α)) : List α := mergeLoop params ([] ++ s)
 
+/-- `if n > -len(slice) && n < len(slice) { … }` (the comparison does not negate `n`, so it is exact on Go's `int`
+as well: no operand of it can overflow; inside the branch `Abs(n) < len(slice)`) -/
 def drop (slice : List α) (n : Int) : Outcome (List α) :=
-  if abs n < slice.length then
+  if n > -(slice.length : Int) ∧ n < slice.length then
     if n > 0 then sliceOf slice n slice.length                      -- slice[n:]
     else sliceOf slice 0 (slice.length - abs n)                     -- slice[:len(slice)-Abs(n)]
   else .ok []
